@@ -104,6 +104,9 @@ type World struct {
 	// BeforeRPC, when set, runs right before a request is handed to the store (used by oracles that
 	// drive reads in the synchronous phase and inject topology changes at chosen RPC indices)
 	BeforeRPC func(c *Client, req *tikvrpc.Request)
+	// AfterRPC, when set, may replace the store's answer (an equivalent wire form of the same answer,
+	// e.g. a lock reported at response level instead of pair level).
+	AfterRPC func(c *Client, req *tikvrpc.Request, resp *tikvrpc.Response) *tikvrpc.Response
 
 	mu      sync.Mutex
 	RPCLog  []RPCRecord
@@ -381,6 +384,9 @@ func (s *seamRPC) SendRequest(ctx context.Context, addr string, req *tikvrpc.Req
 		}()
 	}
 	resp, err := s.inner.SendRequest(ctx, addr, req, timeout)
+	if h := s.c.W.AfterRPC; h != nil && err == nil && resp != nil {
+		resp = h(s.c, req, resp)
+	}
 	rec.Resp, rec.Err = resp, err
 	if req.Type == tikvrpc.CmdPessimisticLock && err == nil && resp != nil && resp.Resp != nil && sched.Active() {
 		// A pessimistic lock request that meets a lock waits on the server before it answers. The mock
